@@ -132,6 +132,28 @@ impl C01 {
     }
 }
 
+/// programs for the binary's file mode: the bytes of the file (line ends inside string literals, a byte-order mark, no
+/// final newline, only a comment, nothing at all) and the amount and shape of the output
+fn binary_file_specials() -> Vec<String> {
+    let long = "x".repeat(1500);
+    vec![
+        "stel s = \"ab\r\ncd\"; print(\"{} {} {}\", lengte(s), s[2] == \"\n\", s[3] == \"\n\"); s".to_string(),
+        "stel s = \"regel een\r\nregel twee\r\n\"; [lengte(s), s[-1], s[-2] == s[-1]]".to_string(),
+        "// alleen commentaar".to_string(),
+        "".to_string(),
+        "\r\n\r\n1 + 1\r\n".to_string(),
+        "1 + 1".to_string(),
+        "#!/usr/bin/env nederlang\n1 + 1".to_string(),
+        format!("print(\"kop\\n{{}}\", \"{}\"); 1", long),
+        format!("print(\"{}\"); print(\"a\\nb\\n{{}}|einde\", \"{}\"); 2", long, long),
+        "stel i = 0; zolang i < 3000 { i += 1; print(\"regel {} van de uitvoer\", i) }; i".to_string(),
+        format!("stel l = [{}]; print(\"lijst:\\n{{}} |einde\", l); lengte(l)", (0..400).map(|k| k.to_string()).collect::<Vec<_>>().join(", ")),
+        "print(\"\"); print(\"\\n\"); print(\"\\n\\n\"); 3".to_string(),
+        "stel m = 0.5; [m, m]".to_string(),
+        "stel a = [\"x\"]; [a, a, [a]]".to_string(),
+    ]
+}
+
 const G_OPS: [Op; 13] = [Op::Add, Op::Subtract, Op::Multiply, Op::Divide, Op::Modulo, Op::Lt, Op::Lte, Op::Gt, Op::Gte, Op::Eq, Op::Neq, Op::And, Op::Or];
 const GROUPING_TOTAL: u64 = 13 * 13 * 2 * 216;
 
@@ -391,77 +413,8 @@ impl Check for C01 {
 }
 
 impl C01 {
-    /// `nederlang <file>`, the way a user runs a program: what the shipped (hook-free) binary writes to stdout and
-    /// stderr and how it ends must be what eval() of the same text yields in process — the printed lines, then the
-    /// result, or the error (whose kind is compared). The reference has already judged eval(); this family judges
-    /// src/bin/nederlang.rs' file mode.
     fn binary_file(&self, text: &str, st: &mut Stats) {
-        let bin = format!("{}/harness/target-repo/release/nederlang", crate::sup::root());
-        if !std::path::Path::new(&bin).exists() {
-            st.inconclusive(format!("{} not built", bin));
-            return;
-        }
-        if text.contains("zolang ja") {
-            return;
-        }
-        let o = eval_observed(text, &ObsCfg::plain(3_000_000));
-        st.evaluations += 1;
-        let mut want_out = String::new();
-        for l in &o.output {
-            want_out.push_str(l);
-            want_out.push('\n');
-        }
-        let want_err: Option<String> = match &o.outcome {
-            Outcome::Value(v) => {
-                let mut s = String::new();
-                if super::c17::display_val(v, &mut s).is_none() {
-                    st.count("binary-file:skipped-unmodelled-rendering");
-                    return;
-                }
-                want_out.push_str(&s);
-                want_out.push('\n');
-                None
-            }
-            Outcome::Error(k, _) => Some(k.name().to_string()),
-            _ => {
-                st.count("binary-file:skipped-budget-or-anomaly");
-                return;
-            }
-        };
-        let path = format!("{}/c01-bin-{}-{:x}.nl", crate::sup::scratch_dir(), std::process::id(), crate::rng::hash_str(text));
-        if std::fs::write(&path, text).is_err() {
-            return;
-        }
-        let out = std::process::Command::new("bash")
-            .arg("-c")
-            .arg("ulimit -S -t 20; ulimit -H -t 30; exec timeout 600 \"$0\" \"$1\"")
-            .arg(&bin)
-            .arg(&path)
-            .stdin(std::process::Stdio::null())
-            .output();
-        let _ = std::fs::remove_file(&path);
-        let out = match out {
-            Ok(o) => o,
-            Err(_) => return,
-        };
-        st.count("binary-file:runs");
-        st.distinct_hash(crate::rng::hash_str(text));
-        if out.status.code() == Some(124) {
-            st.count("case-inconclusive:binary-watchdog");
-            return;
-        }
-        let got_out = String::from_utf8_lossy(&out.stdout).to_string();
-        let got_err = String::from_utf8_lossy(&out.stderr).to_string();
-        if out.status.code() != Some(0) {
-            st.violation("binary-file:abnormal-end", format!("`nederlang <file>` ended with {:?}; stderr: {}", out.status, crate::obs::clip(&got_err, 300)), text);
-            return;
-        }
-        let got_kind: Option<String> = got_err.lines().next().and_then(|l| l.split('(').next()).map(|k| k.trim_end_matches("Error").to_string());
-        if got_out != want_out {
-            st.violation("binary-file:stdout", format!("the binary printed {:?}; eval() in process gives output {:?} and {}", crate::obs::clip(&got_out, 400), o.output.iter().take(6).collect::<Vec<_>>(), o.outcome.render()), text);
-        } else if got_kind != want_err {
-            st.violation("binary-file:stderr", format!("the binary reported {:?}; eval() in process gives {}", crate::obs::clip(&got_err, 200), o.outcome.render()), text);
-        }
+        super::binfile::compare_with_binary(text, "binary-file", st);
     }
 
     /// (family, program text) of a case
@@ -479,9 +432,19 @@ impl C01 {
             }
             "scale" => (name, self.scale(ctx)[i as usize].1.clone()),
             "binary-file" => {
-                // corpus first, then generated programs of every kind
+                // corpus first, then what only file mode can get wrong (how the file is read, how much output gets out),
+                // then generated programs of every kind
+                let special = binary_file_specials();
                 if (i as usize) < self.corpus.len() {
                     (name, self.corpus[i as usize].text.clone())
+                } else if (i as usize) < self.corpus.len() + special.len() {
+                    (name, special[i as usize - self.corpus.len()].clone())
+                } else if i % 4 == 1 {
+                    // a generated program behind a line that measures a text with raw CR LF, CR, LF, TAB and NEL in it, the
+                    // statements separated by CR LF
+                    let mut r = Rng::for_case(ctx.seed, 195, i);
+                    let p = random_program(&mut r, PROFILES[(i % 6) as usize]).0;
+                    (name, format!("stel ruw = \"a\r\nb\rc\nd\te\u{85}f\"; print(\"{{}} {{}}\", lengte(ruw), ruw);\r\n{}", to_text(&p).replace("; ", ";\r\n")))
                 } else {
                     let mut r = Rng::for_case(ctx.seed, 195, i);
                     let p = if i % 3 == 0 { crate::wild::wild_program(&mut r) } else { random_program(&mut r, PROFILES[(i % 6) as usize]).0 };
